@@ -349,3 +349,25 @@ Example C15_nonvacuous_fmt_coercion :
   /\ fmtnum (VInt 17) (B "17") (B "%d%d") = FError /\ fmtifnum (VInt 17) (B "17") (B "%d%d") = FOut (B "17")
   /\ fmtifnum (VInt 17) (B "17") (B "%04d") = FOut (B "0017").
 Proof. vm_compute. repeat split; reflexivity. Qed.
+(* leftpad/rightpad: length in CHARACTERS; whole copies of the pad only: the result never exceeds n and falls short of n by
+   less than one pad; nothing is added when not even one copy fits; truncate leaves short strings alone *)
+Theorem C15_pad_length_law :
+  forall s n p, valid_utf8 p = true ->
+  strlen (leftpad s n p) = (Z.of_nat (pad_count s n p) * strlen p + strlen s)%Z
+  /\ (valid_utf8 s = true -> strlen (rightpad s n p) = (strlen s + Z.of_nat (pad_count s n p) * strlen p)%Z)
+  /\ ((0 < strlen p)%Z -> (strlen s + strlen p <= n)%Z -> (n - strlen p < strlen (leftpad s n p) <= n)%Z)
+  /\ ((n < strlen s + strlen p)%Z -> leftpad s n p = s /\ rightpad s n p = s).
+Proof.
+  intros s n p V. split; [exact (leftpad_length s n p V)|]. split; [intros Vs; exact (rightpad_length s n p Vs V)|].
+  split; [intros P H; rewrite (leftpad_length s n p V); exact (pad_count_bounds s n p P H)|exact (pad_count_zero s n p)].
+Qed.
+Print Assumptions C15_pad_length_law.
+Theorem C15_truncate_short_is_identity : forall s n, (strlen s <= n)%Z -> truncate s n = s.
+Proof. exact truncate_short. Qed.
+Print Assumptions C15_truncate_short_is_identity.
+Example C15_nonvacuous_pad :
+  valid_utf8 (bs [195; 169; 45]%N) = true /\ strlen (bs [195; 169; 45]%N) = 2%Z
+  /\ leftpad (B "ab") 7 (bs [195; 169; 45]%N) = bs [195; 169; 45; 195; 169; 45; 97; 98]%N
+  /\ strlen (leftpad (B "ab") 7 (bs [195; 169; 45]%N)) = 6%Z /\ pad_count (B "ab") 7 (bs [195; 169; 45]%N) = 2%nat
+  /\ leftpad (B "ab") 3 (bs [195; 169; 45]%N) = B "ab" /\ truncate (B "ab") 5 = B "ab".
+Proof. vm_compute. repeat split; reflexivity. Qed.
